@@ -262,6 +262,12 @@ func vfGenC17(t *rapid.T) vfC17Case {
 	o := vfRecGenOpt{reset: true, window: true, maxEv: 260, cont: 2, variants: false}
 	c := vfRecCase{Cfg: vfGenRecCfg(t, o)}
 	c.Cfg.FPS = rapid.IntRange(1, 4).Draw(t, "fps17")
+	if c.Cfg.Min > 3 {
+		c.Cfg.Min = 3
+	}
+	if c.Cfg.Preview > 3 {
+		c.Cfg.Preview = 3
+	}
 	c.Cfg.Max = rapid.IntRange(c.Cfg.Min, 5).Draw(t, "max17")
 	c.Ev = vfGenEvents(t, c.Cfg, o)
 	// pad so that several continuous files fit
